@@ -17,7 +17,10 @@ RULE = (
     "(quick: complete for <=1 term + one 1/%d slice of the 2-term lists; thorough: complete), plus per list: each "
     "constrained variable left unassigned (must raise ValueError), an extra unconstrained variable assigned; member3: "
     "3 variables on {-1,0,0.5,1}^3; empty: is_empty on every list of L<=3 over T({x,y},{-1,0,1},{-1,0,1}) and on thin "
-    "systems c <= k.v <= c+m with margins m in {+-1e-3, +-2^-10, 0, 1} ; consist: ordered pairs (L,R) of small lists: "
+    "systems c <= k.v <= c+m with margins m in {+-1e-3, +-2^-10, 0, 1} (2 variables) and {+-1/8, 0, +-1} over 3 variables (fewer "
+    "constraints than variables); emptyseq: sequences of near-duplicate lists that differ beyond the 4th significant digit queried in "
+    "one process; hair: behaviours on every boundary and 2^-10, 2^-20, 2^-30 inside/outside it (coefficients powers of two, "
+    "constants up to 4096); consist: ordered pairs (L,R) of small lists: "
     "whenever refines answers True every lattice behaviour in L is in R. Oracle: Fraction evaluation of every "
     "inequality; exact feasibility. Non-trivial = behaviour evaluations on a list with at least one constraint / "
     "emptiness of a list with >= 2 constraints." % NSLICES
@@ -41,6 +44,26 @@ def _all():
                 t2 = [{n: -k for n, k in zip(V2, v) if k}, -c]
                 yield {"fam": "empty", "L": [t1, t2], "thin": m}
                 yield {"fam": "empty", "L": [t2, t1, [{"x": 1, "y": 1}, 3]], "thin": m}
+    # three variables, fewer constraints than variables, thin and wide margins
+    for v in grids.vectors(3, [-1, 0, 1, 2]):
+        if sum(1 for k in v if k) < 2:
+            continue
+        for c in (0, 1):
+            for m in (1, -1, -0.125, 0.125, 0):
+                co = {n: k for n, k in zip(["x", "y", "z"], v) if k}
+                yield {"fam": "empty", "L": [[co, c + m], [{n: -k for n, k in co.items()}, -c]], "thin": m}
+    # sequences of near-duplicate lists (differing beyond the 4th significant digit) queried in one process
+    for base in (10000, 16, 1234):
+        for d in (0.25, 2.0 ** -9):
+            for v in ({"x": 1}, {"x": 1, "y": 2, "z": -1}):
+                neg = {n: -k for n, k in v.items()}
+                feas = [[v, base], [neg, -(base - d)]]
+                infe = [[v, base], [neg, -(base + d)]]
+                yield {"fam": "emptyseq", "seq": [feas, infe]}
+                yield {"fam": "emptyseq", "seq": [infe, feas]}
+    # behaviours a hair outside / inside a boundary (exact dyadic offsets down to 2^-30)
+    for t in grids.terms(V2, [-2, -1, 0, 1, 2, 4], [-1, 0, 1, 4096]):
+        yield {"fam": "hair", "L": [t]}
     TC = grids.terms(V2, [-1, 0, 1], [0, 1])
     LC = list(grids.lists_upto(TC, 2))
     for L in LC[:60]:
@@ -59,7 +82,7 @@ def _all():
 def cases(tier, seed):
     sl = seed % NSLICES
     k = 0
-    for c in _all():
+    for c in grids.dedupe(_all()):
         if tier == "thorough" or not (c.get("two") or c.get("three") or c["fam"] == "member3"):
             yield c
         else:
@@ -136,6 +159,36 @@ def run_case(case):
             return [("escaped:" + type(e).__name__, False, None, {"sub": "is_empty", "what": "is_empty raised %s" % type(e).__name__})]
         viol = None if got is exp else {"sub": "is_empty", "what": "is_empty answered %r, exact feasibility says empty=%r" % (got, exp)}
         return [("empty:%s" % got, len(rL) >= 2, None, viol, {"thin": 1} if "thin" in case else None)]
+    if fam == "emptyseq":
+        out = []
+        for k, Lj in enumerate(case["seq"]):
+            L = plist(Lj)
+            exp = not O.feasible(O.rts(L))
+            got = L.is_empty()
+            viol = None if got is exp else {"sub": "is_empty#%d" % k, "what": "is_empty answered %r for query %d of a sequence of near-duplicate lists, exact: empty=%r" % (got, k, exp)}
+            out.append(("empty:%s" % got, True, None, viol, {"thin": 1}))
+        return out
+    if fam == "hair":
+        L = plist(case["L"])
+        rL = O.rts(L)
+        co, c = case["L"][0]
+        vs = {n: Var(n) for n in V2}
+        out = []
+        pivot = sorted(co)[0]
+        a = co[pivot]
+        for other in (-1.5, 0, 2):
+            rest = sum(k * other for n, k in co.items() if n != pivot)
+            on = (c - rest) / a  # exact: a is a power of two
+            for off in (0.0, 2.0 ** -10, -(2.0 ** -10), 2.0 ** -20, -(2.0 ** -20), 2.0 ** -30, -(2.0 ** -30)):
+                val = on + off
+                beh = {vs[n]: (val if n == pivot else other) for n in V2}
+                pt = {n: F(beh[vs[n]]) for n in V2}
+                exp = _ref_in(rL, pt)
+                got = L.contains_behavior(beh)
+                viol = None if got is exp else {"sub": [pivot, repr(val), other], "what": "contains_behavior answered %r for a behaviour %s the boundary by 2^%d, exact evaluation says %r" % (
+                    got, "beyond" if not exp else "within", 0 if off == 0 else round(__import__("math").log2(abs(off))), exp)}
+                out.append(("in" if got else "out", True, None, viol, {"boundary-in": 1} if (exp and off == 0) else None))
+        return out
     if fam == "consist":
         L, R = plist(case["L"]), plist(case["R"])
         if not L.refines(R):
